@@ -191,6 +191,33 @@ def validator_construction(pm, ctx, rule):
                   where, msg='keywords %s are not parameters of %s' % (extra, cname),
                   key=rule + '|%s|extra' % cname)
 
+    # text parameters are spliced into Python source: they must go through repr()
+    for attr in ('pattern', 'format'):
+        uses = [n for n in own_nodes(g.node) if isinstance(n, ast.Attribute) and n.attr == attr
+                and unparse(n.value) == 'dt' and isinstance(n.ctx, ast.Load)]
+        bad = []
+        for u in uses:
+            par = getattr(u, '_parent', None)
+            is_test = isinstance(par, ast.Compare) or isinstance(par, (ast.If, ast.IfExp,
+                                                                       ast.BoolOp, ast.UnaryOp))
+            in_repr = isinstance(par, ast.Call) and isinstance(par.func, ast.Name) and \
+                par.func.id == 'repr' and par.args == [u]
+            # repr(...) must be the whole value: not concatenated or re-quoted
+            whole = in_repr and not isinstance(getattr(par, '_parent', None),
+                                               (ast.BinOp, ast.JoinedStr, ast.FormattedValue))
+            if in_repr and isinstance(getattr(par, '_parent', None), ast.Call) and \
+                    isinstance(par._parent.func, ast.Attribute) and \
+                    par._parent.func.attr == 'format':
+                whole = False
+            if not (is_test or whole):
+                bad.append(u.lineno)
+        ctx.check(rule, uses and not bad,
+                  'dt.%s reaches the generated source only as repr(dt.%s)' % (attr, attr), g.loc,
+                  msg='generate_validator_constructor splices dt.%s into Python source without '
+                      'repr() (line %s): a quote or backslash in the spec text changes or breaks '
+                      'the generated literal' % (attr, bad),
+                  key=rule + '|%s|repr-%s' % (g.qualname, attr))
+
     # Nullable wrap on every return
     rpaths = [p for p in enumerate_paths(g.node) if p.end == 'return']
     bad = []
